@@ -138,7 +138,7 @@ Definition xml_name_start_ranges : list (N * N) :=
    (0xF900, 0xFDCF); (0xFDF0, 0xFFFD); (0x10000, 0xEFFFF)].
 (* NameChar adds: "-" | "." | [0-9] | #xB7 | [#x0300-#x036F] | [#x203F-#x2040] *)
 Definition xml_name_extra_ranges : list (N * N) :=
-  [(45, 46); (48, 57); (0xB7, 0xB7); (0x300, 0x36F); (0x203F, 0x2040)].
+  [(45, 45); (46, 46); (48, 57); (0xB7, 0xB7); (0x300, 0x36F); (0x203F, 0x2040)].
 
 Definition xml_ncname_start (c : N) : bool := in_cp_ranges c xml_name_start_ranges.
 Definition xml_ncname_char (c : N) : bool :=
